@@ -38,6 +38,7 @@ class Repo(object):
         self.sources = {}
         self.fns = {}         # "trees.mod.func" / "trees.mod.Class.meth" -> FnInfo
         self.aliases = {}     # module name -> {local name: ("module", modname) | ("name", modname, attr)}
+        self.classes = set()
         pkg = os.path.join(self.path, "trees")
         for fn in sorted(os.listdir(pkg)):
             if not fn.endswith(".py"):
@@ -67,6 +68,7 @@ class Repo(object):
                 elif isinstance(node, ast.FunctionDef):
                     self._add_fn(mod, node.name, node, src, fn)
                 elif isinstance(node, ast.ClassDef):
+                    self.classes.add("trees.%s.%s" % (mod, node.name))
                     for sub in node.body:
                         if isinstance(sub, ast.FunctionDef):
                             self._add_fn(mod, "%s.%s" % (node.name, sub.name), sub, src, fn)
@@ -585,6 +587,7 @@ class Exec(object):
         st_b = st.fork()
         st_b.assume(it < seq.n)
         if feasible(st_b.pc):
+            self.cur_state = st_b
             self.assign(node.target, seq.get(it), st_b)
             for o in self._with_raises(st_b, self.exec_block(node.body, st_b)):
                 if o.kind in ("normal", "continue"):
@@ -603,7 +606,8 @@ class Exec(object):
         if isinstance(v, (list, tuple)):
             return VList.from_py(list(v))
         if isinstance(v, VStr):
-            return VList(z3.Length(v.t), get=lambda i: VStr(z3.SubString(v.t, i, 1)), et=STR)
+            ex = self
+            return VList(z3.Length(v.t), get=lambda i: VStr(ex.str_piece(ex.cur_state, v.t, i, z3.IntVal(1))), et=STR)
         if isinstance(v, str):
             return VList.from_py(list(v))
         raise Unsupported("iteration over %r" % (v,))
@@ -763,6 +767,8 @@ class Exec(object):
             return ("ext", al)
         if ("trees.%s.%s" % (self.fn.module, e.id)) in self.repo.fns:
             return ("fn", "trees.%s.%s" % (self.fn.module, e.id))
+        if ("trees.%s.%s" % (self.fn.module, e.id)) in self.repo.classes:
+            return ("class", "trees.%s.%s" % (self.fn.module, e.id))
         if e.id in _BUILTINS:
             return ("builtin", e.id)
         # module-level constant of the same module
@@ -786,8 +792,7 @@ class Exec(object):
             q = "trees.%s.%s" % (base[1], e.attr)
             if q in self.repo.fns:
                 return ("fn", q)
-            cls = [k for k in self.repo.fns if k.startswith(q + ".")]
-            if cls:
+            if q in self.repo.classes:
                 return ("class", q)
             return self.repo.constant(base[1], e.attr)
         if isinstance(base, tuple) and base and base[0] == "ext":
@@ -887,8 +892,8 @@ class Exec(object):
             n = z3.Length(base.t)
             i = toint(idx)
             self.safety(st, node, z3.And(i >= -n, i < n), "IndexError", "strindex")
-            ii = z3.If(i < 0, i + n, i)
-            return VStr(z3.SubString(base.t, z3.simplify(ii), 1))
+            ii = z3.simplify(z3.If(i < 0, i + n, i))
+            return VStr(self.str_piece(st, base.t, ii, z3.IntVal(1)))
         raise Unsupported("index into %r" % (base,))
 
     def norm_index(self, lst, idx, st, node):
@@ -924,7 +929,24 @@ class Exec(object):
         sp = self.split_lookup(st, base, l, h)
         if sp is not None:
             return sp
-        return VStr(z3.SubString(base.t, l, ln))
+        return VStr(self.str_piece(st, base.t, l, ln))
+
+    def str_piece(self, st, t, l, ln):
+        """t[l : l+ln] as a word equation: t == p . m . q with |p| == l and |m| == ln (such a
+        decomposition exists whenever 0 <= l, 0 <= ln, l + ln <= |t|; the solver handles word equations
+        far better than nested str.substr terms).  Memoised per (t, l, ln)."""
+        memo = st.env.setdefault("$pieces", {})
+        key = (t.get_id(), z3.simplify(l).get_id(), z3.simplify(ln).get_id())
+        if key in memo:
+            return memo[key]
+        p, m, q = [z3.String(fresh_name(x)) for x in ("sp", "sm", "sq")]
+        n = z3.Length(t)
+        st.assume(z3.Implies(z3.And(l >= 0, ln >= 0, l + ln <= n),
+                             z3.And(t == z3.Concat(p, m, q), z3.Length(p) == l, z3.Length(m) == ln)))
+        st.assume(z3.Implies(z3.Not(z3.And(l >= 0, ln >= 0, l + ln <= n)), m == z3.SubString(t, l, ln)))
+        st.env["$pieces"] = dict(memo)
+        st.env["$pieces"][key] = m
+        return m
 
     # string split registry: s = pre . c . suf
     def split_lookup(self, st, s, l, h):
